@@ -36,7 +36,7 @@ def _strip(tr):
     return {"id": tr["id"], "ev": [{k: e[k] for k in keep if k in e} for e in tr["ev"]]}
 
 
-def validate(traces, cfg="Trace_Engine", shards=None, timeout=1800):
+def validate(traces, cfg="Trace_Engine", shards=None, timeout=1800, _depth=0):
     """Returns (accepted_ids, tlc_results). Traces whose id is not accepted are rejected."""
     if not traces:
         return set(), []
@@ -60,7 +60,32 @@ def validate(traces, cfg="Trace_Engine", shards=None, timeout=1800):
             accepted.add(m.group(1) if m.group(1) is not None else int(m.group(2)))
     for p in files:
         os.remove(p)
+    # A trace the specification cannot even evaluate (TLC raises while exploring it) stops its whole shard.
+    # Such shards are re-validated trace by trace: the offending traces stay unaccepted (and are reported by the
+    # caller as violations with the evaluation error), the others get their verdict.
+    broken = [s for s, r in enumerate(res) if not r.ok and not r.timeout]
+    if broken and _depth == 0:
+        redo = [t for s in broken for t in traces[s::shards] if t["id"] not in accepted]
+        with ctx.Pool(min(util.NCPU, max(1, len(redo)))) as pool:
+            singles = pool.starmap(_single, [(cfg, t, timeout) for t in redo])
+        for t, (ok, r1) in zip(redo, singles):
+            if ok:
+                accepted.add(t["id"])
+        for s in broken:
+            res[s].error_recovered = res[s].error
+            res[s].error = None
+            res[s].finished = True
     return accepted, res
+
+
+def _single(cfg, trace, timeout):
+    d = util.subdir("traces")
+    p = os.path.join(d, "single_%d_%s.json" % (os.getpid(), re.sub(r"\W", "_", str(trace["id"]))[:40]))
+    with open(p, "w") as f:
+        json.dump([_strip(trace)], f)
+    r = tlc.run("Trace_Engine", cfg=cfg, workers=1, env={"TRACE_FILE": p}, timeout=min(timeout, 300), heap="2g")
+    os.remove(p)
+    return ('"ACCEPTED"' in r.out), r
 
 
 def _tlc_one(cfg, path, timeout):
